@@ -24,10 +24,33 @@ const (
 )
 
 func zzAddr(i int) net.Addr {
-	if i == 0 {
+	switch i {
+	case 0:
 		return zzAddrA
+	case 2:
+		return zzAddrA2 // another endpoint on A's host: same IP address, other port
 	}
 	return zzAddrB
+}
+
+// zzFindRx / zzFindTx locate a transaction by what identifies it on the wire - the peer's transport
+// address and the sequence number - without assuming how the implementation spells its map keys.
+func zzFindRx(s *PfcpServer, addr net.Addr, seq uint32) *RxTransaction {
+	for _, rx := range s.rxTrans {
+		if rx.raddr.String() == addr.String() && rx.seq == seq {
+			return rx
+		}
+	}
+	return nil
+}
+
+func zzFindTx(s *PfcpServer, addr net.Addr, counter uint32) *TxTransaction {
+	for _, tx := range s.txTrans {
+		if tx.raddr.String() == addr.String() && tx.seq&0xffffff == counter&0xffffff {
+			return tx
+		}
+	}
+	return nil
 }
 
 func zzNodeID(i int) string {
